@@ -158,3 +158,376 @@ theorem canon_resourcesOf {dirVA : Nat} {t : Node} (h : Encodable dirVA t) : Can
   exact canon_enc (encodeTree dirVA t) dirVA 0 t 0 (ReadAt.whole _) rfl (by omega) (by omega)
 
 end Pelite.Resources
+
+namespace Pelite.Resources
+open Pelite
+
+/-! ### the group resource of an `.ico` file -/
+
+/-- the file can be turned into resources: icon or cursor, complete 8-byte entry headers, sizes and
+offsets that fit their fields, ids that fit `u16` -/
+structure IcoOK (kind : Nat) (imgs : List IcoImage) : Prop where
+  kind : kind = 1 ∨ kind = 2
+  hdr : ∀ im ∈ imgs, im.hdr.length = 8
+  len : ∀ im ∈ imgs, im.data.length < 4294967296
+  count : imgs.length < 65535
+  total : 6 + 16 * imgs.length + (imgs.map (·.data.length)).sum < 4294967296
+
+theorem IcoOK.tail {kind : Nat} {im : IcoImage} {rest : List IcoImage} (h : IcoOK kind (im :: rest)) : IcoOK kind rest :=
+  ⟨h.kind, fun x hx => h.hdr x (by simp [hx]), fun x hx => h.len x (by simp [hx]),
+   by have := h.count; simp at this; omega,
+   by have := h.total; simp only [List.length_cons, List.map_cons, List.sum_cons] at this; omega⟩
+
+theorem groupEntries_length : ∀ (imgs : List IcoImage) (id : Nat), (∀ im ∈ imgs, im.hdr.length = 8) →
+    (groupEntries imgs id).length = 14 * imgs.length
+  | [], _, _ => rfl
+  | im :: rest, id, h => by
+    simp only [groupEntries, List.length_append, le32b_length, le16b_length, List.length_cons,
+      groupEntries_length rest (id + 1) (fun x hx => h x (by simp [hx])), h im (by simp)]
+    omega
+
+/-- the entries `GroupResource::entries` should find -/
+def expEntries : List IcoImage → Nat → Nat → List GroupEntry
+  | [], _, _ => []
+  | im :: rest, start, id => ⟨start, im.data.length, id⟩ :: expEntries rest (start + 14) (id + 1)
+
+theorem expEntries_length : ∀ (imgs : List IcoImage) (start id : Nat), (expEntries imgs start id).length = imgs.length
+  | [], _, _ => rfl
+  | im :: rest, start, id => by simp [expEntries, expEntries_length rest]
+
+theorem groupEntriesFrom_window (r : Resources) : ∀ (imgs : List IcoImage) (start id : Nat),
+    Window r.sec start (groupEntries imgs id) → (∀ im ∈ imgs, im.hdr.length = 8) →
+    (∀ im ∈ imgs, im.data.length < 4294967296) → id + imgs.length ≤ 65536 →
+    groupEntriesFrom r start imgs.length = expEntries imgs start id
+  | [], _, _, _, _, _, _ => rfl
+  | im :: rest, start, id, hw, hh, hl, hid => by
+    simp only [groupEntries, List.append_assoc] at hw
+    have h8 := hh im (by simp)
+    have w1 := hw.right; rw [h8] at w1
+    have w2 := w1.right; rw [le32b_length] at w2
+    have w3 := w2.right; rw [le16b_length] at w3
+    obtain ⟨lo, hi⟩ := w1.left.le32_halves (hl im (by simp))
+    have hidv := w2.left.le16 (v := id) (by simp at hid; omega)
+    have ih := groupEntriesFrom_window r rest (start + 14) (id + 1)
+      (by rw [show start + 8 + 4 + 2 = start + 14 by omega] at w3; exact w3)
+      (fun x hx => hh x (by simp [hx])) (fun x hx => hl x (by simp [hx])) (by simp at hid; omega)
+    simp only [List.length_cons, groupEntriesFrom, expEntries]
+    rw [ih]
+    congr 1
+    unfold groupEntryAt
+    rw [show start + 10 = start + 8 + 2 by omega, hi, lo, show start + 12 = start + 8 + 4 by omega, hidv]
+    have := hl im (by simp)
+    congr 1
+    omega
+
+theorem le32Bytes_eq (n : Nat) : le32Bytes n = le32b n := rfl
+
+theorem writeEntries_ico (r : Resources) : ∀ (imgs : List IcoImage) (start id off : Nat),
+    Window r.sec start (groupEntries imgs id) → (∀ im ∈ imgs, im.hdr.length = 8) →
+    off + (imgs.map (·.data.length)).sum < 4294967296 →
+    writeEntries r (expEntries imgs start id) off = icoEntries imgs off
+  | [], _, _, _, _, _, _ => rfl
+  | im :: rest, start, id, off, hw, hh, hsum => by
+    simp only [groupEntries, List.append_assoc] at hw
+    have h8 := hh im (by simp)
+    simp only [List.map_cons, List.sum_cons] at hsum
+    -- the first 12 bytes of the GRPICONDIRENTRY
+    have w12 : Window r.sec start (im.hdr ++ le32b im.data.length) := by
+      have := hw
+      rw [← List.append_assoc] at this
+      exact this.left
+    have e12 : bytesAt r.sec start 12 = im.hdr ++ le32b im.data.length := by
+      have := w12
+      unfold Window at this
+      rw [List.length_append, h8, le32b_length] at this
+      exact this
+    have w3 := hw.right.right.right
+    rw [h8, le32b_length, le16b_length, show start + 8 + 4 + 2 = start + 14 by omega] at w3
+    have ih := writeEntries_ico r rest (start + 14) (id + 1) (off + im.data.length) w3
+      (fun x hx => hh x (by simp [hx])) (by omega)
+    simp only [expEntries, writeEntries, icoEntries]
+    rw [e12, le32Bytes_eq, show wadd32 off im.data.length = off + im.data.length by unfold wadd32; omega, ih]
+
+theorem images_ico (r : Resources) (g : Group) : ∀ (imgs : List IcoImage) (start id : Nat),
+    (∀ i (h : i < imgs.length), ∃ ref, g.image r (id + i) = .ok (.ok ref) ∧ bytesAt r.sec ref.off ref.len = imgs[i].data) →
+    ((expEntries imgs start id).map (imageOf r g)).flatten = icoData imgs
+  | [], _, _, _ => rfl
+  | im :: rest, start, id, h => by
+    obtain ⟨ref, h1, h2⟩ := h 0 (by simp)
+    simp only [Nat.add_zero, List.getElem_cons_zero] at h1 h2
+    have ih := images_ico r g rest (start + 14) (id + 1) (fun i hi => by
+      obtain ⟨ref', g1, g2⟩ := h (i + 1) (by simp; omega)
+      refine ⟨ref', ?_, ?_⟩
+      · rw [show id + 1 + i = id + (i + 1) by omega]; exact g1
+      · simpa using g2)
+    simp only [expEntries, List.map_cons, List.flatten_cons, icoData]
+    rw [ih]
+    congr 1
+    unfold imageOf
+    dsimp only
+    rw [h1]
+    exact h2
+
+/-- `GroupResource::new` on the group blob of a file -/
+theorem groupNew_blob {r : Resources} {kind : Nat} {imgs : List IcoImage} (hok : IcoOK kind imgs) {ref : Ref}
+    (hw : Window r.sec ref.off (groupBlob kind imgs)) (hlen : ref.len = (groupBlob kind imgs).length)
+    (hal : (r.base + ref.off) % 2 = 0) (hbnd : ref.off + ref.len ≤ r.sec.size) :
+    groupNew r ref = .ok ⟨ref.off, kind, imgs.length⟩ ∧ (groupBlob kind imgs).length = 6 + 14 * imgs.length := by
+  have hblen : (groupBlob kind imgs).length = 6 + 14 * imgs.length := by
+    simp only [groupBlob, List.length_append, le16b_length, groupEntries_length imgs 1 hok.hdr]
+  refine ⟨?_, hblen⟩
+  simp only [groupBlob, List.append_assoc] at hw
+  have f0 := hw.left.le16 (v := 0) (by omega)
+  have w1 := hw.right; rw [le16b_length] at w1
+  have f1 := w1.left.le16 (v := kind) (by have := hok.kind; omega)
+  have w2 := w1.right; rw [le16b_length] at w2
+  have f2 := w2.left.le16 (v := imgs.length) (by have := hok.count; omega)
+  rw [groupNew_eq hbnd, if_neg (by omega), if_neg (by omega), f0, f1, show ref.off + 4 = ref.off + 2 + 2 by omega, f2,
+    if_neg (by have := hok.kind; omega), if_neg (by omega)]
+
+end Pelite.Resources
+
+namespace Pelite.Resources
+open Pelite
+
+/-! ### following entries by position -/
+
+theorem entryAt_dir {r : Resources} (hb : Aligned r) {pos : Nat} {nm : RName} {n : Nat} {es rest : Entries}
+    (h : IsEntries r pos (.cons nm (.dir n es) rest)) :
+    (entryAt r pos).getName r = .ok nm.toName ∧
+    (entryAt r pos).entry r = .ok (.dir ⟨le32 r.sec (pos + 4) % 0x80000000, n, es.length - n⟩) ∧
+    IsNode r (le32 r.sec (pos + 4) % 0x80000000) (.dir n es) ∧ IsEntries r (pos + 8) rest := by
+  unfold IsEntries at h
+  obtain ⟨hname, hkind, hnode, hrest⟩ := h
+  have hge : (entryAt r pos).offset ≥ 0x80000000 := hkind.2 rfl
+  obtain ⟨h1, _, _, _⟩ := dir_of_isNode hb hnode
+  exact ⟨getName_of_nameAt hb (e := entryAt r pos) hname, entry_of_dir hge h1, hnode, hrest⟩
+
+theorem entryAt_data {r : Resources} (hb : Aligned r) {pos : Nat} {nm : RName} {c : List UInt8} {cp : Nat} {rest : Entries}
+    (h : IsEntries r pos (.cons nm (.data c cp) rest)) :
+    (entryAt r pos).getName r = .ok nm.toName ∧
+    (entryAt r pos).entry r = .ok (.data ⟨le32 r.sec (pos + 4) % 0x80000000,
+      le32 r.sec (le32 r.sec (pos + 4) % 0x80000000), le32 r.sec (le32 r.sec (pos + 4) % 0x80000000 + 4),
+      le32 r.sec (le32 r.sec (pos + 4) % 0x80000000 + 8)⟩) ∧
+    IsNode r (le32 r.sec (pos + 4) % 0x80000000) (.data c cp) ∧ IsEntries r (pos + 8) rest := by
+  unfold IsEntries at h
+  obtain ⟨hname, hkind, hnode, hrest⟩ := h
+  have hlt : (entryAt r pos).offset < 0x80000000 := by
+    have := hkind.1
+    simp only [Node.isDir] at this
+    show le32 r.sec (pos + 4) < 0x80000000
+    by_cases hc : 0x80000000 ≤ le32 r.sec (pos + 4)
+    · exact absurd (this hc) (by decide)
+    · omega
+  have hmod : le32 r.sec (pos + 4) % 0x80000000 = (entryAt r pos).offset := Nat.mod_eq_of_lt hlt
+  refine ⟨getName_of_nameAt hb (e := entryAt r pos) hname, ?_, hnode, hrest⟩
+  rw [hmod] at hnode ⊢
+  obtain ⟨h1, _, _, _⟩ := data_of_isNode hb hnode
+  exact entry_of_data hlt h1
+
+/-! ### the resource tree of a file -/
+
+theorem imageEntries_lookup : ∀ (imgs : List IcoImage) (s i : Nat) (h : i < imgs.length),
+    (imageEntries imgs s).lookup (.id (s + i)) =
+      some (.dir 0 (.cons (.id 1033) (.data imgs[i].data 0) .nil))
+  | [], _, _, h => by simp at h
+  | im :: rest, s, 0, _ => by
+    simp only [imageEntries, Entries.lookup, nameMatch, Nat.add_zero, decide_true, if_true, List.getElem_cons_zero]
+  | im :: rest, s, i + 1, h => by
+    have hne : ¬ (s = s + (i + 1)) := by omega
+    have := imageEntries_lookup rest (s + 1) i (by simp at h; omega)
+    simp only [imageEntries, Entries.lookup, nameMatch, hne, decide_false, Bool.false_eq_true, if_false,
+      List.getElem_cons_succ]
+    rw [show s + (i + 1) = s + 1 + i by omega, this]
+
+/-- type ids of the images / of the group for a file of the given kind -/
+def icoType (kind : Nat) : Nat := if kind = 1 then RT_ICON else RT_CURSOR
+def icoGroupType (kind : Nat) : Nat := if kind = 1 then RT_GROUP_ICON else RT_GROUP_CURSOR
+
+theorem icoToTree_eq (kind : Nat) (imgs : List IcoImage) :
+    icoToTree kind imgs =
+      .dir 0 (.cons (.id (icoType kind)) (.dir 0 (imageEntries imgs 1))
+        (.cons (.id (icoGroupType kind))
+          (.dir 0 (.cons (.id 1) (.dir 0 (.cons (.id 1033) (.data (groupBlob kind imgs) 0) .nil)) .nil)) .nil)) := rfl
+
+/-- the image a group entry names is found, and it is that image's data -/
+theorem image_ico {r : Resources} (hb : Aligned r) {kind : Nat} {imgs : List IcoImage} (hk : kind = 1 ∨ kind = 2)
+    (ht : IsTree r (icoToTree kind imgs)) {g : Group} (hg : g.ty = kind) (i : Nat) (hi : i < imgs.length) :
+    ∃ ref, g.image r (1 + i) = .ok (.ok ref) ∧ bytesAt r.sec ref.off ref.len = imgs[i].data := by
+  have hty : g.typeId = .ok (icoType kind) := by
+    unfold Group.typeId icoType
+    rcases hk with h | h
+    · rw [hg, h]; rfl
+    · rw [hg, h]; rfl
+  unfold Group.image
+  rw [hty]
+  dsimp only
+  obtain ⟨d, hr, hrep⟩ := root_rep hb ht
+  have key : FRelG (RepBytes r)
+      (liftE (root r) fun d => bindF (d.getDir r (.id (icoType kind))) fun td => bindF (td.getDir r (.id (1 + i))) fun nd =>
+        bindF (nd.firstData r) fun de => liftE (de.bytes r) okF)
+      (((icoToTree kind imgs).getDir (.id (icoType kind))).bind fun a => (a.getDir (.id (1 + i))).bind fun b => b.firstData) :=
+    FRelG.liftE hr ((getDir_rep hb hrep _).bind (fun _ _ h1 => (getDir_rep hb h1 _).bind (fun _ _ h2 =>
+      (firstData_rep hb h2).bind_ok (fun _ _ h3 => bytes_rep hb h3))))
+  have hspec : (((icoToTree kind imgs).getDir (.id (icoType kind))).bind fun a => (a.getDir (.id (1 + i))).bind fun b => b.firstData) =
+      .ok (.data imgs[i].data 0) := by
+    rw [icoToTree_eq]
+    simp only [Node.getDir, Node.get, Entries.lookup, nameMatch, decide_true, if_true]
+    show (Except.ok (Node.dir 0 (imageEntries imgs 1)) : FRes Node).bind _ = _
+    simp only [Except.bind, Node.asDir, Node.getDir, Node.get]
+    rw [imageEntries_lookup imgs 1 i hi]
+    rfl
+  rw [hspec] at key
+  obtain ⟨ref, h1, c, cp, h2, _, _, h4⟩ := key
+  cases h2
+  exact ⟨ref, h1, h4⟩
+
+end Pelite.Resources
+
+namespace Pelite.Resources
+open Pelite
+
+theorem ico_types_ne {kind : Nat} (hk : kind = 1 ∨ kind = 2) : icoType kind ≠ icoGroupType kind := by
+  rcases hk with h | h <;> subst h <;> decide
+
+/-- `icons()` / `cursors()` on the resources of a file: exactly one group, named `1`, whose header
+and entries are the group blob -/
+theorem groups_ico {r : Resources} (hb : Aligned r) {kind : Nat} {imgs : List IcoImage} (hok : IcoOK kind imgs)
+    (ht : IsTree r (icoToTree kind imgs)) (hc : Canon r 0 (icoToTree kind imgs)) :
+    ∃ g, groups r (icoGroupType kind) = .ok [.ok (.id 1, g)] ∧ GroupOK r g ∧ g.ty = kind ∧ g.count = imgs.length ∧
+      Window r.sec g.off (groupBlob kind imgs) := by
+  obtain ⟨_, hnode⟩ := ht
+  rw [icoToTree_eq] at hnode hc
+  -- the root and its two entries
+  obtain ⟨hroot, hdroot, _, hents⟩ := dir_of_isNode hb hnode
+  obtain ⟨hn0, _, _, hents1⟩ := entryAt_dir hb hents
+  obtain ⟨hn1, he1, hnodeB, _⟩ := entryAt_dir hb hents1
+  -- the group directory and its only entry
+  obtain ⟨_, hdG, _, hentsG⟩ := dir_of_isNode hb hnodeB
+  obtain ⟨hn2, he2, hnodeC, _⟩ := entryAt_dir hb hentsG
+  -- the language directory and its only entry, the data entry
+  obtain ⟨_, hdN, _, hentsN⟩ := dir_of_isNode hb hnodeC
+  obtain ⟨_, he3, hnodeD, _⟩ := entryAt_data hb hentsN
+  obtain ⟨_, hbytes, hblob, _⟩ := data_of_isNode hb hnodeD
+  -- canonical layout: the blob follows its data entry
+  unfold Canon at hc
+  unfold CanonEntries at hc
+  have hc1 := hc.2
+  unfold CanonEntries at hc1
+  have hcB := hc1.1
+  unfold Canon at hcB
+  unfold CanonEntries at hcB
+  have hcC := hcB.1
+  unfold Canon at hcC
+  unfold CanonEntries at hcC
+  have hcD := hcC.1
+  unfold Canon at hcD
+  obtain ⟨hx, hx4⟩ := hcD
+  -- names of the offsets
+  generalize hg0 : le32 r.sec (0 + 16 + 8 + 4) % 0x80000000 = g0 at *
+  generalize hn0' : le32 r.sec (g0 + 16 + 4) % 0x80000000 = n0 at *
+  generalize hx' : le32 r.sec (n0 + 16 + 4) % 0x80000000 = x at *
+  -- the bytes handed to `GroupResource::new`
+  have hoff : le32 r.sec x - r.dirVA = x + 16 := by omega
+  rw [hoff] at hbytes hblob
+  have hwin : Window r.sec (x + 16) (groupBlob kind imgs) := by
+    unfold Window
+    rw [hblob, bytesAt_length]
+  have hlen : le32 r.sec (x + 4) = (groupBlob kind imgs).length := by rw [hblob, bytesAt_length]
+  have hbnd := (bytes_bound hbytes).1
+  obtain ⟨hnew, hblen⟩ := groupNew_blob (r := r) (ref := ⟨x + 16, le32 r.sec (x + 4), 1⟩) hok hwin hlen
+    (by unfold Aligned at hb; show (r.base + (x + 16)) % 2 = 0; omega) hbnd
+  obtain ⟨hgok, _, _⟩ := groupNew_ok hbnd hnew
+  refine ⟨⟨x + 16, kind, imgs.length⟩, ?_, hgok, rfl, rfl, hwin⟩
+  -- now run `groups`
+  have hq : (Name.id (icoType kind)).eq (Name.id (icoGroupType kind)) = false := by
+    show decide (icoType kind = icoGroupType kind) = false
+    exact decide_eq_false (ico_types_ne hok.kind)
+  have hq' : (Name.id (icoGroupType kind)).eq (Name.id (icoGroupType kind)) = true := by
+    show decide (icoGroupType kind = icoGroupType kind) = true
+    exact decide_eq_true rfl
+  have hpick : pick r (.id (icoGroupType kind)) [entryAt r (0 + 16), entryAt r (0 + 16 + 8)] =
+      .ok (.ok (.dir ⟨g0, 0, (Entries.cons (.id 1) (.dir 0 (.cons (.id 1033) (.data (groupBlob kind imgs) 0) .nil)) .nil).length - 0⟩)) := by
+    unfold pick firstMatch
+    rw [hn0]
+    dsimp only [RName.toName]
+    rw [hq]
+    simp only [Bool.false_eq_true, if_false]
+    unfold firstMatch
+    rw [hn1]
+    dsimp only [RName.toName]
+    rw [hq']
+    simp only [if_true]
+    rw [he1]
+    rfl
+  have hgetDir : (liftE (root r) fun d => d.getDir r (.id (icoGroupType kind))) =
+      .ok (.ok ⟨g0, 0, (Entries.cons (.id 1) (.dir 0 (.cons (.id 1033) (.data (groupBlob kind imgs) 0) .nil)) .nil).length - 0⟩) := by
+    rw [show root r = dirTryFrom r 0 from rfl, hroot]
+    simp only [liftE, Dir.getDir]
+    rw [lookup_eq_pick hb hdroot]
+    show bindF (pick r (.id (icoGroupType kind)) [entryAt r (0 + 16), entryAt r (0 + 16 + 8)]) asDir = _
+    rw [hpick]
+    rfl
+  have hfirst : Dir.firstData r ⟨n0, 0, (Entries.cons (.id 1033) (.data (groupBlob kind imgs) 0) .nil).length - 0⟩ =
+      .ok (.ok ⟨x, le32 r.sec x, le32 r.sec (x + 4), le32 r.sec (x + 8)⟩) := by
+    unfold Dir.firstData Dir.first
+    rw [entries_eq hb hdN]
+    show bindF (liftE ((entryAt r (n0 + 16)).entry r) okF) asData = _
+    rw [he3]
+    rfl
+  have hitem : groupItem r (entryAt r (g0 + 16)) = .ok (.ok (.id 1, ⟨x + 16, kind, imgs.length⟩)) := by
+    unfold groupItem
+    rw [hn2, he2]
+    simp only [liftE, asDir, okF, bindF]
+    rw [hfirst]
+    dsimp only
+    rw [hbytes]
+    dsimp only
+    rw [hnew]
+    rfl
+  unfold groups
+  rw [hgetDir]
+  dsimp only
+  rw [entries_eq hb hdG]
+  show groupItems r [entryAt r (g0 + 16)] = _
+  unfold groupItems
+  rw [hitem]
+  rfl
+
+end Pelite.Resources
+
+namespace Pelite.Resources
+open Pelite
+
+/-- on any 4-aligned section that represents the resource tree of a file in the canonical layout,
+the group is found and `write` reproduces the file -/
+theorem write_ico {r : Resources} (hb : Aligned r) {kind : Nat} {imgs : List IcoImage} (hok : IcoOK kind imgs)
+    (ht : IsTree r (icoToTree kind imgs)) (hc : Canon r 0 (icoToTree kind imgs)) :
+    ∃ g, groups r (icoGroupType kind) = .ok [.ok (.id 1, g)] ∧ g.write r = .ok (icoFile kind imgs) := by
+  obtain ⟨g, hgroups, hgok, hty, hcount, hwin⟩ := groups_ico hb hok ht hc
+  refine ⟨g, hgroups, ?_⟩
+  rw [write_eq hb hgok]
+  -- the header and the entry array inside the blob
+  have hwin' : Window r.sec g.off ((le16b 0 ++ le16b kind ++ le16b imgs.length) ++ groupEntries imgs 1) := hwin
+  have hH : bytesAt r.sec g.off 6 = le16b 0 ++ le16b kind ++ le16b imgs.length := hwin'.left
+  have hE : Window r.sec (g.off + 6) (groupEntries imgs 1) := hwin'.right
+  have hentries : groupEntriesFrom r (g.off + 6) g.count = expEntries imgs (g.off + 6) 1 := by
+    rw [hcount]
+    exact groupEntriesFrom_window r imgs (g.off + 6) 1 hE hok.hdr hok.len (by have := hok.count; omega)
+  rw [hentries, expEntries_length]
+  have hW : writeEntries r (expEntries imgs (g.off + 6) 1) (6 + imgs.length * 16) = icoEntries imgs (6 + 16 * imgs.length) := by
+    rw [show 6 + imgs.length * 16 = 6 + 16 * imgs.length by omega]
+    exact writeEntries_ico r imgs (g.off + 6) 1 _ hE hok.hdr hok.total
+  have hI : ((expEntries imgs (g.off + 6) 1).map (imageOf r g)).flatten = icoData imgs :=
+    images_ico r g imgs (g.off + 6) 1 (fun i hi => image_ico hb hok.kind ht hty i hi)
+  rw [hH, hW, hI]
+  rfl
+
+/-- **round trip of an `.ico` / `.cur` file** through the specification's resource compiler and
+`GroupResource::write` -/
+theorem ico_round_trip {kind : Nat} {imgs : List IcoImage} (hok : IcoOK kind imgs) (henc : Encodable 0 (icoToTree kind imgs)) :
+    ∃ g, groups (icoToResources kind imgs) (icoGroupType kind) = .ok [.ok (.id 1, g)] ∧
+      g.write (icoToResources kind imgs) = .ok (icoFile kind imgs) :=
+  write_ico (aligned_resourcesOf 0 _) hok (isTree_resourcesOf henc) (canon_resourcesOf henc)
+
+end Pelite.Resources
